@@ -151,6 +151,20 @@ pub fn oracle_c01(ctx: &mut Ctx, idx: usize, c: &SCase, r: &SearchAlgorithmResul
     }
     let root = inner_source(c);
     for t in &r.trees {
+        // edge-oriented: the search origin is the origin EDGE; an entry at its head must be that edge's own entry —
+        // any other entry there has a parent, and following parents from it cannot end at the origin
+        if c.edge_oriented {
+            if let Some(b0) = t.get(&routee_compass_core::model::network::vertex_id::VertexId(root)) {
+                let e0 = b0.edge_traversal.edge_id.0;
+                if e0 != c.source {
+                    ctx.fail(
+                        idx,
+                        "tree/not-rooted",
+                        format!("the entry at the head {} of the origin edge {} records edge {} with parent {}: following parents from it does not end at the search origin", root, c.source, e0, b0.terminal_vertex.0),
+                    );
+                }
+            }
+        }
         for (k, br) in t.iter() {
             let e = br.edge_traversal.edge_id.0;
             if e >= c.edges.len() {
@@ -847,7 +861,18 @@ fn oracle_c10(ctx: &mut Ctx, idx: usize, c: &SCase, b: &Built, ex: &Exec) {
                 }
             }
         }
-        _ => {}
+        Outcome::Err(_) => {
+            // a run that returns under a limit with anything but 'terminated' — "no path", a model's error —
+            // must be the answer of the unlimited run: a stop must never be reported as something else
+            let mut c2 = c.clone();
+            c2.term = Term::Combined(vec![]);
+            if let Ok(b2) = build(&c2) {
+                let ex2 = exec(&c2, &b2);
+                if outcome_line(&ex2.outcome) != outcome_line(&ex.outcome) {
+                    ctx.fail(idx, "limit/result-differs-from-unlimited", format!("limited: {} unlimited: {}", short(&outcome_line(&ex.outcome)), short(&outcome_line(&ex2.outcome))));
+                }
+            }
+        }
     }
 }
 
